@@ -1185,9 +1185,11 @@ class NodeLambda:
             if len(expressions) > 0:
                 lastexpr = expressions[-1]
                 if isinstance(lastexpr, NodeReturn):
-                    expressions[-1] = lastexpr.expression
+                    expressions[-1] = (
+                        lastexpr.expression or NodeNull(lastexpr.pos)
+                    )
         elif isinstance(body, NodeReturn):
-            body = body.expression
+            body = body.expression or NodeNull(body.pos)
         self.body = body
 
     def evaluate(self, environment):
